@@ -15,8 +15,8 @@ CLASSES = {
 RUNS = {
     ("C01", "quick"): [("MC_Router_c01quick.cfg", None, None), ("MC_Router_c01orders.cfg", None, None)],
     ("C01", "thorough"): [("MC_Router_c01thorough.cfg", None, None), ("MC_Router_c01three.cfg", None, None), ("MC_Router_c01orders.cfg", None, None)],
-    ("C02", "quick"): [("MC_Router_c02quick.cfg", None, None), ("MC_Router_c02paths.cfg", None, None), ("MC_Router_c02sim.cfg", 30, 11)],
-    ("C02", "thorough"): [("MC_Router_c02quick.cfg", None, None), ("MC_Router_c02paths.cfg", None, None), ("MC_Router_c02thorough.cfg", None, None), ("MC_Router_c02sim.cfg", 400, 11)],
+    ("C02", "quick"): [("MC_Router_c02quick.cfg", None, None), ("MC_Router_c02paths.cfg", None, None), ("MC_Router_c02paths2.cfg", None, None), ("MC_Router_c02sim.cfg", 30, 11)],
+    ("C02", "thorough"): [("MC_Router_c02quick.cfg", None, None), ("MC_Router_c02paths.cfg", None, None), ("MC_Router_c02paths2.cfg", None, None), ("MC_Router_c02thorough.cfg", None, None), ("MC_Router_c02sim.cfg", 400, 11)],
     ("C17", "quick"): [("MC_Router_c01quick.cfg", None, None), ("MC_Router_c02quick.cfg", None, None)],
     ("C17", "thorough"): [("MC_Router_c01thorough.cfg", None, None), ("MC_Router_c02thorough.cfg", None, None), ("MC_Router_c02sim.cfg", 200, 11)],
     ("C12", "quick"): [("MC_Router_c02quick.cfg", None, None), ("MC_Router_c02sim.cfg", 20, 11)],
